@@ -55,9 +55,9 @@ func vhSymbolicRequest(route int, emptyHeaderValues bool) greq.Req {
 		vhOptional("small", "x-small", minH, 2, "01-", &r.Header)
 	case 4:
 		vhOptional("c", "c", 0, 2, "rx", &r.Query)
-	case 5:
-		r.Path = []greq.KV{{Key: "name", Value: symxString("name", 0, 1, "a")}}
 	case 6:
+		r.Path = []greq.KV{{Key: "name", Value: symxString("name", 0, 1, "a")}}
+	case 7:
 		r.Path = []greq.KV{{Key: "name", Value: symxString("name", 0, 1, "a")}}
 		vhOptional("big", "big", 0, 2, "01-a", &r.Query)
 	}
@@ -153,6 +153,7 @@ func vhC12(route int, emptyHeaderValues bool) {
 	fixture := vhFixture()
 	exp := fixture[route]
 	req := vhSymbolicRequest(route, emptyHeaderValues)
+	vhAddDecoys(&req)
 	// one set of callback answers and one controller outcome, shared by the five runs
 	authAnswers := []int{symxChoice("auth0", 3), symxChoice("auth1", 3)}
 	opFails := symxBool("operation.fails")
@@ -224,8 +225,9 @@ func vh_C12_create_Q()  { vhC12(1, false) }
 func vh_C12_form_Q()    { vhC12(2, false) }
 func vh_C12_search_Q()  { vhC12(3, false) }
 func vh_C12_color_Q()   { vhC12(4, false) }
-func vh_C12_remove_Q()  { vhC12(5, false) }
-func vh_C12_put_Q()     { vhC12(6, false) }
+func vh_C12_ping_Q()    { vhC12(5, false) }
+func vh_C12_remove_Q()  { vhC12(6, false) }
+func vh_C12_put_Q()     { vhC12(7, false) }
 
 // header values may be empty: presence of an empty-valued header
 func vh_C12_empty_header_Q() { vhC12(0, true) }
